@@ -120,7 +120,7 @@ DEP_CODEMODS = ["pixee:python/use-defusedxml", "pixee:python/url-sandbox", "pixe
                 "pixee:python/flask-enable-csrf-protection"]
 
 
-def seed_project(rng, seeds: dict, codemods: list[str], n_files: int, manifest: str | None = None):
+def seed_project(rng, seeds: dict, codemods: list[str], n_files: int, manifest: str | None = None, manifest_dir: str = ""):
     """files {rel: text} built from seeds of the given codemods (+ optionally one manifest); returns (files, origin)"""
     files, origin = {}, {}
     dirs = ["", "pkg/", "pkg/sub/", "app/"]
@@ -133,7 +133,7 @@ def seed_project(rng, seeds: dict, codemods: list[str], n_files: int, manifest: 
         files[rel] = rng.choice(pool)
         origin[rel] = cid
     if manifest:
-        files[manifest] = rng.choice(MANIFESTS[manifest])
+        files[manifest_dir + manifest] = rng.choice(MANIFESTS[manifest])
     return files, origin
 
 
@@ -147,6 +147,8 @@ def layout_variants(code: str) -> dict[str, bytes]:
     out["formfeed"] = (code.split("\n", 1)[0] + "\n\x0c" + (code.split("\n", 1)[1] if "\n" in code else "")).encode()
     out["bom"] = b"\xef\xbb\xbf" + code.encode()
     out["cr-only-in-string"] = (code + 's = "a\\rb"\n').encode()
+    # a declared non-UTF-8 source encoding with a non-ASCII byte: codemodder decodes as UTF-8 only
+    out["latin1-cookie"] = b"# -*- coding: latin-1 -*-\n# caf\xe9\n" + code.encode()
     return out
 
 
